@@ -1,6 +1,6 @@
 #!/bin/bash
 # run every registered check once (quick) and summarise
-cd /verif
+cd "$(dirname "$0")/.."
 for p in C01 C02 C03 C04 C05 C06 C07 C08 C09 C10 C11 C12 C13 C14 C15 C16 C17 C18 C19 C20; do
   s=$(date +%s)
   out=$(timeout 1500 ./vcheck $p ${1:-quick} 2>/dev/null | tail -3)
